@@ -166,6 +166,7 @@ type sysRun struct {
 	stageLines      []int // records written after stage k
 	minWindowSteps  int   // fewest scheduler steps in any 1 s window of the last settle attempt
 	procsAtSettle   int   // size of the process table when that attempt began
+	sigQuiet        bool  // SIGINT/SIGTERM was delivered to fzf's handler while no child process was around
 }
 
 // checkSpin: bounded liveness once the faults have stopped. Nothing external is pending (no key or
@@ -529,9 +530,27 @@ func (r *sysRun) user() {
 			if ev.Sig == "INT" {
 				s = os.Interrupt
 			}
-			r.os.Signal(s)
+			delivered := r.os.Signal(s)
 			r.c.count("fault.signal_"+ev.Sig, 1)
 			r.sim.Logf("signal %s", ev.Sig)
+			if !delivered {
+				// no handler installed (yet): the default action ends the process; nothing of fzf's runs any more
+				r.sigKilled = true
+				r.c.count("exit.default_signal", 1)
+			} else {
+				// fzf ignores SIGINT while a foreground command runs (the child receives it too); with no child
+				// around - none alive, none gone in the last two seconds - it has to act on the signal
+				quiet := true
+				now := r.sim.Now()
+				for _, p := range r.os.Snapshot() {
+					if p.Alive || (p.Ended > 0 && now-p.Ended < 2*time.Second) || (p.Started > 0 && now-p.Started < 2*time.Second) {
+						quiet = false
+					}
+				}
+				if quiet {
+					r.sigQuiet = true
+				}
+			}
 		case "hup":
 			r.tty.HangUp()
 			r.c.count("fault.tty_hangup", 1)
@@ -660,6 +679,9 @@ func (r *sysRun) settle(maxWindows int) (settled bool, out zsim.Outcome) {
 func (r *sysRun) drive() bool {
 	c := r.c
 	for phase := 0; phase < 10000; phase++ {
+		if r.sigKilled {
+			return false
+		}
 		settled, out := r.settle(120)
 		c.outcome = out.String()
 		if r.done {
@@ -721,6 +743,9 @@ func (r *sysRun) drive() bool {
 // finish forces termination (if still running) and collects the outcome.
 func (r *sysRun) finish() {
 	c := r.c
+	if !r.done && r.became == "" && r.sigQuiet && !r.sigKilled {
+		c.violate("sys.signal_ignored", "SIGINT/SIGTERM was delivered while no command was running, the session came to rest, and fzf is still there; parked=%v\n%s", r.sim.Parked(), blockedStacks())
+	}
 	if !r.done && r.became == "" {
 		// responsiveness probe: ctrl-c must end the session. Every malformed escape sequence still queued in the
 		// key decoder takes one more key press to get past (its "second chance" read blocks), so ctrl-c is
